@@ -10,7 +10,7 @@ package main
 //   <store>;|st                      obs: <tip id>/<state letters in rowid order>      (sanity: same store on both sides)
 //   <store>;|loc                     obs: the ids of Headers.LatestHeaderLocator(), comma separated
 //   <store>;|q=<id>,<id>,../<stop>   obs: <G> same | <G> L=<L>
-//        G = Headers.LocateHeadersGetHeaders(locator, stop):  H:<ids>  |  E:nolocators | E:stoplow | E:other | PANIC
+//        G = Headers.LocateHeadersGetHeaders(locator, stop):  H:<ids>  |  E:stoplow | E:nolocators (code before 744966c) | E:other | PANIC
 //        L = Headers.LocateHeaders(locator, stop): H:<ids>; "same" when it returns exactly G's headers (nothing on error)
 //
 // <store> = a C01 history line (see common_chain.go); the token `linear=<n>` stands for the canonical linear
